@@ -327,6 +327,18 @@ register(
 )
 
 
+register(
+    "C17",
+    [vh_stage("c17", 16, 16, death_is_violation=False, case_limit_s=30)],
+    "generated programs (every modern dialect, command line build with and without -O) whose parameter list is extended by 1..4 lower-case parameters placed flat in front, as a nested group, or as a group with a dotted tail; each added parameter is used in one of 13 modes "
+    "(directly, through a helper, an inline helper, a let, a lambda capture, only in one branch of a dynamic condition, only as a condition, only in a failing branch, only in the dead branch of a static condition, not at all, passed to a helper that ignores it, as a &rest argument, through an inline helper of a helper); the generator's own parameters (renamed to lower case) are used or unused as generated. "
+    "The report is taken from check_unused (what run --check-unused-args prints). Oracle, for every reported parameter that does not overlap an @ capture: 3 (thorough 6) generated argument trees x 7 replacement values of all shapes for that parameter alone; the compiled program run by clvmr must return the same value for both members of every pair or fail for both. "
+    "Distinct non-trivial = distinct program with >= 1 reported parameter whose pairs all agreed",
+    min_nontrivial=100,
+    assumptions=["a case the check's evaluator does not finish within 30 s is inconclusive here (non-termination is C14's subject)", "parameters below or naming an @ capture are not judged: no pair of inputs differs in such a parameter alone"],
+)
+
+
 def _c12_stage(ctx):
     import c12
 
